@@ -692,8 +692,11 @@ def eval_lines(repo, cov_py):
             except OSError:
                 cache[fn] = []
         miss = []
+        texts = (info.get('text') or {}).get(key) or {}
         for l in sorted(set(lines) - h):
-            txt = cache.get(fn, [])[l - 1].strip() if fn and 0 < l <= len(cache.get(fn, [])) else ''
+            txt = texts.get(str(l))
+            if txt is None:
+                txt = cache.get(fn, [])[l - 1].strip() if fn and 0 < l <= len(cache.get(fn, [])) else ''
             txt = re.sub(r'\s+#.*$', '', txt)
             if LINE_EXCLUDED.get((key, txt)):
                 miss.append([l, txt, 'excluded: ' + LINE_EXCLUDED[(key, txt)]])
